@@ -7,7 +7,7 @@ VERIF = os.path.dirname(os.path.dirname(os.path.abspath(__file__)))
 BOUNDED = ('Contract-based deductive verification of the mechanically extracted real code (clang AST -> C on every run): per-function contracts '
            '(requires/ensures/assigns over the representation invariant wf and the abstract view) enforced by goto-instrument --dfcc and discharged by CBMC from an '
            'arbitrary wf state with symbolic keys/values/clock/arguments. Unbounded in history length and data; bounded in capacity (quick: capacity<=3, heaviest units <=2, symmetry-reduced pre-state; thorough: capacity<=3 unreduced) '
-           'except where route U (cbmc --z3 over infinite node pools, symbolic capacity) discharges the same obligations for every capacity: lru, mru, rr, lfu, part of fifo; '
+           'except where route U (cbmc --z3 over infinite node pools, symbolic capacity) discharges the same obligations for every capacity: lru, mru, rr, lfu, part of fifo, and for every number of entries: ut_map, ut_set (public methods relative to the purge loop\'s contract); '
            'so the level is "other" (bounded stand-in), not "proof".')
 NOTE = ('Trusted: C contracts of std::list/unordered_map/map/multimap/vector/mutex in /verif/cstl (co-simulated against libstdc++ through the real library on every run); '
         'extraction fidelity (co-simulation); uint64_t instantiation stands for all key/value types (parametricity argued, not proved); no allocation failure/exceptions; '
@@ -38,7 +38,7 @@ def main():
             engine='cbmc-dfcc',
             level_claimed=dict(category=c.get('category', 'other'), text=c.get('text', BOUNDED) + ' Covered: ' + c['covered'], design_ref=c.get('design_ref', 'DESIGN.md section 8')),
             level_note=NOTE + ' ' + c.get('note', ''),
-            technique=c.get('technique', 'code contracts on extracted C: goto-instrument DFCC + CBMC (bounded capacity) and cbmc --z3 harnesses (unbounded capacity) for lru/mru/rr/lfu')))
+            technique=c.get('technique', 'code contracts on extracted C: goto-instrument DFCC + CBMC (bounded capacity) and cbmc --z3 harnesses (unbounded capacity) for lru/mru/rr/lfu/fifo/ut_map/ut_set')))
     m = dict(version=1,
              setup_cmd='bin/check --setup',
              hooks=dict(guard='CAPPUCCINO_VERIF_HOOKS', enable='none needed: the technique adds no instrumentation to /repo (contracts live in /verif/contracts, keyed by function name)',
